@@ -5,7 +5,9 @@ use log::{debug, trace};
 
 use num_bigint::BigInt;
 use program_structure::cfg::Cfg;
+use program_structure::cfg::Index;
 use program_structure::ir::value_meta::{ValueMeta, ValueReduction};
+use program_structure::ir::variable_meta::VariableMeta;
 use program_structure::report_code::ReportCode;
 use program_structure::report::{Report, ReportCollection};
 use program_structure::ir::*;
@@ -158,12 +160,12 @@ impl ComponentInput {
 /// Tracks constraints for a single input to `LessThan`.
 #[derive(Default)]
 struct ConstraintData {
-    /// Input to `LessThan`.
-    pub less_than: Vec<Meta>,
+    /// Input to `LessThan` (with the basic block of the assignment).
+    pub less_than: Vec<(Meta, Index)>,
     /// Input to `Num2Bits`.
     pub num_2_bits: Vec<Meta>,
-    /// Size constraints enforced by `Num2Bits`.
-    pub bit_sizes: Vec<Expression>,
+    /// Size constraints enforced by `Num2Bits` (with the basic block of the assignment).
+    pub bit_sizes: Vec<(Expression, Index)>,
 }
 
 /// The `LessThan` template from Circomlib does not constrain the individual
@@ -187,23 +189,26 @@ pub fn find_unconstrained_less_than(cfg: &Cfg) -> ReportCollection {
             update_components(stmt, &mut components);
         }
     }
+    // The inputs, each with the basic block of the statement which assigns it.
     let mut inputs = Vec::new();
     for basic_block in cfg.iter() {
         for stmt in basic_block.iter() {
-            update_inputs(stmt, &components, &mut inputs);
+            let mut stmt_inputs = Vec::new();
+            update_inputs(stmt, &components, &mut stmt_inputs);
+            inputs.extend(stmt_inputs.into_iter().map(|input| (basic_block.index(), input)));
         }
     }
     let mut constraints = HashMap::<Expression, ConstraintData>::new();
-    for input in inputs {
+    for (block, input) in inputs {
         match input {
             ComponentInput::LessThan { value } => {
                 let entry = constraints.entry(*value.clone()).or_default();
-                entry.less_than.push(value.meta().clone());
+                entry.less_than.push((value.meta().clone(), block));
             }
             ComponentInput::Num2Bits { value, bit_size, .. } => {
                 let entry = constraints.entry(*value.clone()).or_default();
                 entry.num_2_bits.push(value.meta().clone());
-                entry.bit_sizes.push(*bit_size.clone());
+                entry.bit_sizes.push((*bit_size.clone(), block));
             }
         }
     }
@@ -213,25 +218,26 @@ pub fn find_unconstrained_less_than(cfg: &Cfg) -> ReportCollection {
     let mut reports = ReportCollection::new();
     let max_value = BigInt::from(cfg.constants().prime_size() - 1);
     for (value, data) in constraints {
-        // Check if the the value is used as input for `LessThan`.
-        if data.less_than.is_empty() {
-            continue;
-        }
-        // Check if the value is constrained to be positive.
-        let mut is_positive = false;
-        for bit_size in &data.bit_sizes {
-            if let Some(ValueReduction::FieldElement { value }) = bit_size.value() {
-                if value < &max_value {
-                    is_positive = true;
-                    break;
-                }
-            }
-        }
-        if is_positive {
-            continue;
-        }
+        // Inputs are matched by the expression. An expression which reads a local variable may
+        // have different values at different points of the template (an index variable has the
+        // same name inside and after a loop), so for such an expression only a range check in
+        // the same basic block counts.
+        let is_fixed = value.locals_read().is_empty();
+        // Check if the value is used as input for `LessThan` without being constrained to be
+        // positive.
+        let unchecked = data.less_than.iter().find(|(_, block)| {
+            !data.bit_sizes.iter().any(|(bit_size, other_block)| {
+                (is_fixed || other_block == block)
+                    && matches!(
+                        bit_size.value(),
+                        Some(ValueReduction::FieldElement { value }) if *value < max_value
+                    )
+            })
+        });
         // We failed to prove that the input is positive. Generate a report.
-        reports.push(build_report(&value, &data));
+        if let Some((less_than, _)) = unchecked {
+            reports.push(build_report(&value, less_than, &data));
+        }
     }
     debug!("{} new reports generated", reports.len());
     reports
@@ -353,13 +359,18 @@ fn update_inputs(
 }
 
 #[must_use]
-fn build_report(value: &Expression, data: &ConstraintData) -> Report {
+fn build_report(value: &Expression, less_than: &Meta, data: &ConstraintData) -> Report {
     UnconstrainedLessThanWarning {
         value: value.clone(),
         // The expression may also occur as an input to `Num2Bits` (expressions are compared
         // without their locations), so the location is taken from the input to `LessThan`.
-        less_than: data.less_than.first().unwrap_or(value.meta()).clone(),
-        bit_sizes: data.num_2_bits.iter().cloned().zip(data.bit_sizes.iter().cloned()).collect(),
+        less_than: less_than.clone(),
+        bit_sizes: data
+            .num_2_bits
+            .iter()
+            .cloned()
+            .zip(data.bit_sizes.iter().map(|(bit_size, _)| bit_size.clone()))
+            .collect(),
     }
     .into_report()
 }
